@@ -18,7 +18,7 @@ use crate::tree_node::{
 };
 use crate::Configuration;
 use crate::{
-    errors::{AkdError, DirectoryError, ParallelismError, TreeNodeError},
+    errors::{AkdError, DirectoryError, ParallelismError, StorageError, TreeNodeError},
     storage::{Database, Storable},
     AppendOnlyProof, AzksElement, AzksValue, Digest, Direction, MembershipProof, NodeLabel,
     NonMembershipProof, PrefixOrdering, SiblingProof, SingleAppendOnlyProof, SizeOf, ARITY,
@@ -850,8 +850,7 @@ impl Azks {
 
         let mut longest_prefix_children = [empty_azks_element; ARITY];
         for (i, dir) in [Direction::Left, Direction::Right].iter().enumerate() {
-            match lcp_node
-                .get_child_node(storage, *dir, self.latest_epoch)
+            match Self::get_child_node_for_proof(storage, &lcp_node, *dir, self.latest_epoch)
                 .await?
             {
                 None => {
@@ -1233,6 +1232,27 @@ impl Azks {
         self.latest_epoch = epoch;
     }
 
+    /// Loads the child of a node for proof generation. A node which names a child has that child:
+    /// when the child cannot be read as of `epoch` (a reader whose epoch has fallen behind storage
+    /// gets NotFound for nodes which changed more than once since) this is an error and not an
+    /// absent child. Taking it for an empty subtree produced proofs which do not verify.
+    async fn get_child_node_for_proof<S: Database>(
+        storage: &StorageManager<S>,
+        node: &TreeNode,
+        direction: Direction,
+        epoch: u64,
+    ) -> Result<Option<TreeNode>, AkdError> {
+        let child = node.get_child_node(storage, direction, epoch).await?;
+        if child.is_none() {
+            if let Some(child_label) = node.get_child_label(direction) {
+                return Err(AkdError::Storage(StorageError::NotFound(format!(
+                    "TreeNode {child_label:?} as of epoch {epoch}"
+                ))));
+            }
+        }
+        Ok(child)
+    }
+
     /// Gets the sibling node of the passed node's child in the "opposite" of the passed direction.
     async fn get_child_azks_element_in_dir<TC: Configuration, S: Database>(
         &self,
@@ -1242,7 +1262,8 @@ impl Azks {
         latest_epoch: u64,
     ) -> Result<AzksElement, AkdError> {
         // Find the sibling in the "other" direction
-        let sibling = curr_node.get_child_node(storage, dir, latest_epoch).await?;
+        let sibling =
+            Self::get_child_node_for_proof(storage, curr_node, dir, latest_epoch).await?;
         Ok(AzksElement {
             label: node_to_label::<TC>(&sibling),
             value: node_to_azks_value::<TC>(&sibling, NodeHashingMode::WithLeafEpoch),
@@ -1271,9 +1292,9 @@ impl Azks {
             let direction = Direction::try_from(prefix_ordering).map_err(|_| {
                 AkdError::TreeNode(TreeNodeError::NoDirection(curr_node.label, None))
             })?;
-            let child = curr_node
-                .get_child_node(storage, direction, latest_epoch)
-                .await?;
+            let child =
+                Self::get_child_node_for_proof(storage, &curr_node, direction, latest_epoch)
+                    .await?;
             if child.is_none() {
                 // Special case, if the root node has a direction with no child there
                 break;
